@@ -371,11 +371,90 @@ def r113(an: Analysis, rep, V, dispositions):
                 f"the flags slot of CodeType is built from {'the literal' if N in consts else 'the function-type field, whose Literal type contains'} {N!r}" if ok
                 else f"the decoder consumes flag {N} into the data but nothing in the encoder adds {N!r} to the flag set: the flag is lost on re-encoding",
                 config=vname(V))
+    # polarity: a flag consumed into a boolean / optional field is added exactly when that field is set
+    r113_polarity(an, rep, V, f, dispositions)
     # from_flags_data folds with getattr on the same enumeration the decoder decomposes against
     enum_ok = any(a[0] == "ext" and "enum" in a[1] for a in org) or any(a[0] == "ext" and a[1].endswith("COMPILER_FLAG_NAMES") for a in org)
     rep.add("R11.3", f"{f.qual}::flags folded through the flag enumeration", enum_ok, loc(f.module, call),
             "flag names are converted through the enumeration built from dis.COMPILER_FLAG_NAMES/__future__" if enum_ok
             else "flags slot is not derived from the flag enumeration", config=vname(V))
+
+
+def r113_polarity(an, rep, V, f, dispositions):
+    """Each `flags |= {"X"}` / `.add("X")` in the encoder's top function is guarded by a test that is true iff the guarding data is 'set'."""
+    from sa.feval import FevalError, feval
+    from .encode_model import conj, guards_of, inline_locals
+    from .c05 import _O
+    it, _ = an.interp("to_code", V)
+    p = f.params[0]
+    for st in ast.walk(f.node):
+        names = set()
+        if isinstance(st, ast.AugAssign) and isinstance(st.op, ast.BitOr) and isinstance(st.value, ast.Set):
+            names = {e.value for e in st.value.elts if isinstance(e, ast.Constant) and isinstance(e.value, str)}
+        if not names:
+            continue
+        gs = guards_of(f.module, f, st)
+        if not gs:
+            continue
+        test = inline_locals(f.node, conj(gs), keep_calls=True)
+        for N in sorted(names):
+            if dispositions.get(N) != "consumed":
+                continue
+            # model the CodeData argument: every attribute chain rooted at the parameter is a leaf we can set or clear
+            leaves = sorted({norm_src(a) for a in ast.walk(test) if isinstance(a, ast.Attribute) and _rooted(a, p)} |
+                            {n.id for n in ast.walk(test) if isinstance(n, ast.Name) and n.id != p and n.id not in ("isinstance", "len", "bool", "Function")})
+            leaves = [l for l in leaves if not any(l != m and m.startswith(l + ".") for m in leaves)]
+            if not leaves or len(leaves) > 3:
+                continue
+            import itertools
+            res = {}
+            for combo in itertools.product((True, False), repeat=len(leaves)):
+                env = {l: (("x",) if sv else ()) for l, sv in zip(leaves, combo)}
+                try:
+                    res[combo] = bool(feval(test, env))
+                except (FevalError, KeyError, TypeError):
+                    res = None
+                    break
+            if res is None:
+                continue
+            # NOFREE is the one flag that is present when ALL its data (free and cell variables) is empty;
+            # every other flag is present when its (single) datum is set
+            if N == "NOFREE":
+                want = {c: not any(c) for c in res}
+            else:
+                want = {c: all(c) for c in res}
+            ok = res == want
+            want_when_set = N != "NOFREE"
+            if N == "NOFREE" and ok:
+                # the decoder ties NOFREE to BOTH co_freevars and co_cellvars being empty: the guard must depend on data from both
+                it_d, ret_d = an.interp("from_code", V)
+                attrs = set()
+                raw = conj(gs)
+                for nm in ast.walk(raw):
+                    if isinstance(nm, (ast.Name, ast.Attribute)):
+                        for a in it.origins(it.value_at(nm)):
+                            if a[0] == "src" and a[1] == "self":
+                                for o in it_d.origins(it_d.navigate(ret_d, a[2]), stop_kinds=("call:len",)):
+                                    if o[0] == "src" and o[1] == "code" and o[2]:
+                                        attrs.add(o[2][0][1])
+                need = {"co_freevars", "co_cellvars"}
+                if not need <= attrs:
+                    rep.add("R11.3", f"{f.qual}::flag NOFREE depends on free and cell variables", False, loc(f.module, st),
+                            f"the encoder adds NOFREE from data that the decoder took from {sorted(attrs & need) or sorted(attrs)} only; CPython (and the decoder's own assertion) sets it "
+                            f"iff there are neither free nor cell variables: code with {sorted(need - attrs)} re-encodes with a wrong CO_NOFREE", config=vname(V))
+                else:
+                    rep.add("R11.3", f"{f.qual}::flag NOFREE depends on free and cell variables", True, loc(f.module, st),
+                            "guard data originates in co_freevars and co_cellvars", config=vname(V))
+            rep.add("R11.3", f"{f.qual}::flag {N} polarity", ok, loc(f.module, st),
+                    f"`{norm_src(test)}` adds {N} exactly when {leaves} is {'set' if want_when_set else 'empty'}" if ok else
+                    f"`{norm_src(test)}` adds {N} for the assignments {[dict(zip(leaves, c)) for c, v in res.items() if v]} of (set / empty) data, expected "
+                    f"{[dict(zip(leaves, c)) for c, v in want.items() if v]}: the re-encoded co_flags differs from the decoded one", config=vname(V))
+
+
+def _rooted(a, p) -> bool:
+    while isinstance(a, ast.Attribute):
+        a = a.value
+    return isinstance(a, ast.Name) and a.id == p
 
 
 # --------------------------------------------------------------------------- R11.4
